@@ -472,7 +472,7 @@ VARIANTS = [
                         return val
 
         elif cls.combinator == "^":""")),
-    B("C09 ~ returns the converted value", "C09", "R09b",
+    B("C09 ~ returns the converted value", "C09", "R09a",
       (RULE, """                    try:
                         new_context.transformer(value, con)
                         context.handle_error(
